@@ -448,7 +448,7 @@ pub fn step(w: &mut Option<World>, line: &str) -> Result<Vec<StepObs>, String> {
                 None => "none".to_string(),
                 Some(s) => format!("some:{}", join(s.iter(), ",")),
             };
-            let mut o = obs("get", line, raw.clone());
+            let mut o = obs("get", line, sorted.clone());
             o.answered = raw != "none";
             Ok(vec![o.expect("query_with", "query_with(key) posting (as a set)", &expected, &sorted)])
         }
@@ -486,10 +486,11 @@ pub fn step(w: &mut Option<World>, line: &str) -> Result<Vec<StepObs>, String> {
                 _ => return Err("rq: asc|desc".into()),
             };
             let stop: Option<u64> = if t[2] == "-" { None } else { Some(nat(t[2])?) };
-            let odd = match t[3] {
-                "all" => false,
-                "odd" => true,
-                _ => return Err("rq: all|odd".into()),
+            let (odd, cnt) = match t[3] {
+                "all" => (false, false),
+                "odd" => (true, false),
+                "cnt" => (false, true),
+                _ => return Err("rq: all|odd|cnt".into()),
             };
             let mut pos = 4;
             let q = parse_q(&t, &mut pos)?;
@@ -500,7 +501,12 @@ pub fn step(w: &mut Option<World>, line: &str) -> Result<Vec<StepObs>, String> {
             let cb = |k: &i64, p: &Vec<u64>| {
                 calls += 1;
                 let conti = stop.is_none_or(|n| calls < n);
-                let rt: Vec<(i64, u64)> = p.iter().filter(|d| !odd || **d % 2 == 1).map(|d| (*k, *d)).collect();
+                let rt: Vec<(i64, u64)> = if cnt {
+                    // fixed two-element sequence, independent of the posting order
+                    vec![(*k, p.len() as u64), (*k, p.len() as u64 + 1000)]
+                } else {
+                    p.iter().filter(|d| !odd || **d % 2 == 1).map(|d| (*k, *d)).collect()
+                };
                 (conti, rt)
             };
             let res: Vec<(i64, u64)> = if desc { w.idx.range_query_rev_with(q.real(), cb) } else { w.idx.range_query_with(q.real(), cb) };
@@ -508,7 +514,7 @@ pub fn step(w: &mut Option<World>, line: &str) -> Result<Vec<StepObs>, String> {
             let raw = show(&res);
             // canonical for the oracle: ids sorted inside each run of one key (group order kept)
             let mut canon = res.clone();
-            let mut i = 0;
+            let mut i = if cnt { canon.len() } else { 0 };
             while i < canon.len() {
                 let mut j = i;
                 while j < canon.len() && canon[j].0 == canon[i].0 {
@@ -517,7 +523,8 @@ pub fn step(w: &mut Option<World>, line: &str) -> Result<Vec<StepObs>, String> {
                 canon[i..j].sort_unstable();
                 i = j;
             }
-            let mut o = obs("rq", line, raw.clone());
+            let _ = raw;
+            let mut o = obs("rq", line, show(&canon));
             o.answered = !res.is_empty();
             o.hits.push(format!("rq:{}{}", if desc { "desc" } else { "asc" }, if stop.is_some() { ":stop" } else { "" }));
             o.hits.push(format!("rq:depth={}", q.depth().min(65)));
@@ -530,7 +537,11 @@ pub fn step(w: &mut Option<World>, line: &str) -> Result<Vec<StepObs>, String> {
             let groups: Vec<(i64, Vec<u64>)> = w.oracle.iter().filter(|(k, _)| q.selects(**k)).map(|(k, s)| (*k, s.iter().copied().collect())).collect();
             let take = stop.map(|n| (n.max(1) as usize).min(groups.len())).unwrap_or(groups.len());
             let sel: &[(i64, Vec<u64>)] = if desc { &groups[groups.len() - take..] } else { &groups[..take] };
-            let exp: Vec<(i64, u64)> = sel.iter().flat_map(|(k, ids)| ids.iter().filter(|d| !odd || **d % 2 == 1).map(|d| (*k, *d))).collect();
+            let exp: Vec<(i64, u64)> = if cnt {
+                sel.iter().flat_map(|(k, ids)| [(*k, ids.len() as u64), (*k, ids.len() as u64 + 1000)]).collect()
+            } else {
+                sel.iter().flat_map(|(k, ids)| ids.iter().filter(|d| !odd || **d % 2 == 1).map(|d| (*k, *d))).collect()
+            };
             Ok(vec![o.expect(
                 if desc { "range_query_rev_with" } else { "range_query_with" },
                 "range query answer (groups in key order, ids as sets, early stop after n callbacks)",
@@ -541,8 +552,8 @@ pub fn step(w: &mut Option<World>, line: &str) -> Result<Vec<StepObs>, String> {
         "dump" => {
             arity(1)?;
             let o = match dump(&w.idx) {
-                Ok((raw, sorted)) => {
-                    let mut o = obs("dump", line, raw);
+                Ok((_raw, sorted)) => {
+                    let mut o = obs("dump", line, sorted.clone());
                     o.answered = sorted != "-";
                     o.expect("contents", "final contents (keys() + query_with)", &dump_oracle(&w.oracle), &sorted)
                 }
@@ -627,8 +638,8 @@ fn reload_steps(w: &mut World, what: &str, mut pre: Vec<StepObs>) -> Result<Vec<
         }
         Ok((raw, sorted)) => {
             let expected = if raw == "nometa" { "-".to_string() } else { dump_oracle(&w.committed) };
-            let (raw, sorted) = if raw == "nometa" { ("-".to_string(), "-".to_string()) } else { (raw, sorted) };
-            o.impl_raw = raw;
+            let sorted = if raw == "nometa" { "-".to_string() } else { sorted };
+            o.impl_raw = sorted.clone();
             o.answered = sorted != "-";
             o.prefixes_loaded = 1;
             o = o.expect("load", "contents after reload = contents of the last committed flush", &expected, &sorted);
@@ -672,7 +683,7 @@ fn flush_family(w: &mut World, t: &[&str], line: &str) -> Result<Vec<StepObs>, S
                     o.prefixes_loaded += 1;
                     let exp = if raw == "nometa" { "nometa".to_string() } else { old.clone() };
                     o = o.expect("flush-crash", &format!("contents loaded after {jj} of {} writes of a flush that failed before its commit = last committed contents", run.writes.len()), &exp, &sorted);
-                    last_raw = raw;
+                    last_raw = sorted;
                 }
             }
         }
@@ -733,7 +744,7 @@ fn finish_flush(w: &mut World, mut o: StepObs, run: FlushRun, crash: Option<u64>
                 };
                 o = o.expect("flush-crash", &what, &exp, &sorted);
                 o.answered |= sorted != "-" && sorted != "nometa";
-                dumps.push(raw);
+                dumps.push(sorted);
             }
         }
     }
